@@ -622,6 +622,17 @@ func newWalletBatch(b *Batch, fr *core.Rand, thorough bool) {
 			b.Fixed = append(b.Fixed, &Episode{Kind: "wallet-dil", Profile: "c09-entropy", Create: "entropy", Entropy: entropyPlan(fr, mode, k), NSigs: 1, Forms: dForms, DrainSeed: fr.Uint64()})
 		}
 	}
+	// seeds that begin with the wallet's own 3-byte descriptor
+	for _, h := range []uint8{4, 6, 8, 10} {
+		for hf := uint8(0); hf < 3; hf++ {
+			ep := mk(fr, h, hf, true, "seed", nil)
+			ep.Profile = "c09-descriptor-in-seed"
+			sd, _ := hex.DecodeString(ep.SeedHex)
+			sd[0], sd[1], sd[2] = hf, h>>1, 0 // signature type XMSS (0) << 4 | hash ; address format 0 << 4 | height/2
+			ep.SeedHex = hex.EncodeToString(sd)
+			b.Fixed = append(b.Fixed, ep)
+		}
+	}
 	// seeds with extreme byte patterns
 	for i, pat := range [][2]byte{{0x00, 0x00}, {0xff, 0xff}, {0xff, 0x00}, {0x00, 0xff}, {0x0f, 0xf0}, {0x20, 0x20}, {0x11, 0x11}, {0x01, 0x01}, {0x07, 0x70}, {0x99, 0x12}, {0x08, 0x90}, {0xaa, 0xaa}} {
 		sd := make([]byte, 48)
